@@ -117,7 +117,8 @@ def make_data(obj, inputs, clim, extra=None):
         kw["clim_type"] = obj["climType"]
     if extra:
         kw.update(extra)
-    return verif.data.Data(list(inputs), **kw)
+    # the caller's own list is handed over, every time: building a Data object must not change it (checked by callers that reuse it)
+    return verif.data.Data(inputs, **kw)
 
 
 def field_of(name):
@@ -294,6 +295,10 @@ def check_dataset(job):
                 dd = make_data(obj, inputs, clim) if fresh else data
                 res = do_request(dd, r)
             out["n"] += 1
+            if dd.num_inputs != len(obj["inputs"]) or len(inputs) != len(obj["inputs"]):
+                div("data:scored-inputs", "Data() built from %d input files%s scores %d inputs (the caller's list now holds %d)"
+                    % (len(obj["inputs"]), " and a climatology" if clim is not None else "", dd.num_inputs, len(inputs)), req=r)
+                break
             msg = compare_request(r, res, grid, rtol)
             if msg:
                 div("scores:%s" % r["a"], "fields=%s input=%d axis=%s[%d]: %s" % (r["f"], r["i"], r["a"], r["k"], msg), req=r)
